@@ -28,6 +28,22 @@
 (*                                                                          *)
 (* FixF2 / FixF3 select the repaired behaviour (proposed_fixes/F2-*.diff,   *)
 (* F3-*.diff); FALSE is the behaviour of the pinned tree.                   *)
+(*                                                                          *)
+(* Modelling decisions (each is an assumption of the checks, see c02.py):   *)
+(*  - raft's calling discipline only: Snapshot() is serial with Apply and   *)
+(*    Restore, Persist may overlap later Applies, one snapshot at a time,   *)
+(*    a live Restore does not overlap a pending Persist.                    *)
+(*  - Restart = crash + start: volatile state lost, Restore(newest), then   *)
+(*    re-Apply of the raft log after the snapshot's raft index (or from 1)  *)
+(*    up to the END of the log: raft's commit index after a start is never  *)
+(*    behind what the node had applied; Snapshot() is not interleaved with  *)
+(*    that replay.                                                          *)
+(*  - the irclog copy of an entry is rewritten whenever the entry is        *)
+(*    (re-)applied, so after the restart that follows ApplyPanics the copy  *)
+(*    of a marked entry is the MessageOfDeath form: the irclog is modelled  *)
+(*    as a set of indices, content = log + mod.                             *)
+(*  - a crash inside Snapshot() is covered by SnapshotTake;Restart (the     *)
+(*    deletions are durable, everything else is volatile).                  *)
 (***************************************************************************)
 EXTENDS Integers, Sequences, FiniteSets, TLC, Json
 
@@ -444,5 +460,4 @@ ModProgress == (~up) => ((applied + 1) \in mod /\ AfterRestart.ns.srv = Replay(L
 (* Getting behaviours out of TLC: every generated transition prints the    *)
 (* history that leads to it (ACTION_CONSTRAINT EmitEdge).                  *)
 EmitEdge == PrintT(<<"EDGE", ToJson(hist')>>)
-EmitDeep(d) == IF Len(hist') >= d THEN PrintT(<<"EDGE", ToJson(hist')>>) ELSE TRUE
 =============================================================================
